@@ -228,6 +228,7 @@ pub fn sql_corpus(tabs: &[Tab]) -> Vec<(String, String)> {
     v.push(("const_on_empty".into(), format!("SELECT c0, 5 AS k FROM {a} WHERE c0 > 100")));
     v.push(("limit_small".into(), format!("SELECT c0 FROM {a} LIMIT 1 OFFSET 1")));
     v.push(("union_const_empty".into(), format!("SELECT 'a' AS x FROM {a} WHERE c0 > 100 UNION ALL SELECT 'b' AS x FROM {b}")));
+    v.push(("agg_sets_one_row".into(), "SELECT c0, c1, count(*) FROM (VALUES (1, 2)) v(c0, c1) GROUP BY GROUPING SETS ((c0), (c1), ())".to_string()));
     v.push(("case_proj".into(), format!("SELECT CASE WHEN c0 > 1 THEN c0 ELSE -c0 END, c0 IS NULL FROM {b} WHERE c0 IS NOT NULL OR c1 IS NULL")));
     v
 }
@@ -531,7 +532,7 @@ pub fn fixed_source(shape: &[Vec<usize>]) -> DFResult<P> {
     Ok(MemorySourceConfig::try_new_exec(&parts, schema, None)?)
 }
 
-pub const WITNESS_TREES: usize = 12;
+pub const WITNESS_TREES: usize = 13;
 pub fn witness_tree(g: &mut TreeGen, i: usize) -> DFResult<P> {
     let src = fixed_source(&[vec![3, 2], vec![4], vec![1, 0, 3]])?;
     let asc = |k: usize| LexOrdering::new(vec![PhysicalSortExpr { expr: colx(k), options: SortOptions { descending: false, nulls_first: true } }]).unwrap();
@@ -551,6 +552,16 @@ pub fn witness_tree(g: &mut TreeGen, i: usize) -> DFResult<P> {
         }
         9 => Arc::new(SortPreservingMergeExec::new(asc(2), Arc::new(SortExec::new(asc(2), src).with_preserve_partitioning(true))).with_fetch(Some(4))),
         10 => Arc::new(CoalescePartitionsExec::new(src).with_fetch(Some(2))),
-        _ => Arc::new(CrossJoinExec::new(Arc::new(CoalescePartitionsExec::new(fixed_source(&[vec![2], vec![1]])?)), src)),
+        11 => Arc::new(CrossJoinExec::new(Arc::new(CoalescePartitionsExec::new(fixed_source(&[vec![2], vec![1]])?)), src)),
+        _ => {
+            // partial aggregate with GROUPING SETS ((a), (b), ()) over ONE row that sits in the first of three partitions
+            let one = fixed_source(&[vec![1], vec![], vec![]])?;
+            let schema = one.schema();
+            let aggr = vec![Arc::new(AggregateExprBuilder::new(count_udaf(), vec![colx(2)]).schema(Arc::clone(&schema)).alias("c").build()?)];
+            let null = || Arc::new(Literal::new(ScalarValue::Int64(None))) as Arc<dyn PhysicalExpr>;
+            let gb = PhysicalGroupBy::new(vec![(colx(0), "a".to_string()), (colx(1), "b".to_string())], vec![(null(), "a".to_string()), (null(), "b".to_string())],
+                vec![vec![false, true], vec![true, false], vec![true, true]], true);
+            Arc::new(AggregateExec::try_new(AggregateMode::Partial, gb, aggr, vec![None], one, schema)?)
+        }
     })
 }
